@@ -9,7 +9,11 @@ Graph == Trace[l].e = "graph" /\ g' = Trace[l].g /\ bad' = (IF Accepted(Trace[l]
 Verdict == Trace[l].e = "verdict" /\ bad' = (IF Trace[l].accepted = Accepted(g) THEN bad ELSE bad \cup {l}) /\ UNCHANGED g
 RunEv == Trace[l].e = "run" /\ bad' = (IF Accepted(g) /\ Trace[l].out = Run(g) THEN bad ELSE bad \cup {l}) /\ UNCHANGED g
 Probe == Trace[l].e = "probe" /\ bad' = (IF Trace[l].visible = Visible(g, Trace[l].j, Trace[l].name) THEN bad ELSE bad \cup {l}) /\ UNCHANGED g
-Next == l <= Len(Trace) /\ l' = l + 1 /\ (Graph \/ Verdict \/ RunEv \/ Probe)
+\* an import statement that does not stand at the top level (inside a function that is called several times, inside a loop): whatever else
+\* it means, the initialiser of the imported module runs at most once.  {"e":"once","inits":[modules in the order their initialisers ran]}
+Once == Trace[l].e = "once" /\ UNCHANGED g
+        /\ bad' = (IF \A i, j \in 1..Len(Trace[l].inits) : i # j => Trace[l].inits[i] # Trace[l].inits[j] THEN bad ELSE bad \cup {l})
+Next == l <= Len(Trace) /\ l' = l + 1 /\ (Graph \/ Verdict \/ RunEv \/ Probe \/ Once)
 Spec == Init /\ [][Next]_<<l, g, bad>>
 Done == l = Len(Trace) + 1
 Report == Done => PrintT(<<"@@bad@@", bad>>) /\ PrintT(<<"@@lines@@", Len(Trace)>>)
